@@ -132,7 +132,7 @@ REQUIRED = {
  'C07':['unlock_exact','orig_over_releases','unlock_exact_nonvacuous'],
  'C08':['vestedPart_exact','vestedPart_bounds','newVestingAccount_post','send_above_locked_fails','bumpLast_adds_exactly','createVA_post'],
  'C09':['newCva_other','send_keeps_existing','createVA_rejects_existing','newVestingAccount_rejects_existing','splitCoins_rejects_existing','unlock_shape','keepsExcept_splitCoins','existing_untouched','existing_untouched_history','tie_account_writers'],
- 'C10':['minter_no_halt','no_negative_sub','validated_denom','tie_no_unguarded_int64','distributor_block_completes','distributor_never_halts','distributor_block_nonvacuous','block_completes_with_registered_invariants','custom_beginblock_never_halts','distributor_never_halts_under_updates'],
+ 'C10':['minter_no_halt','no_negative_sub','validated_denom','tie_no_unguarded_int64','distributor_block_completes','distributor_never_halts','distributor_block_nonvacuous','block_completes_with_registered_invariants','custom_beginblock_never_halts','distributor_never_halts_under_updates','envOkB_sound','bech32FactsB_sound'],
  'C11':['last_occurrence_order_irrelevant','tie_nondet_sites'],
  'C12':['minter_roundtrip','minter_behaviour_preserved','distr_state_roundtrip','period_roundtrip','sig_roundtrip_fails','distr_roundtrip_after_block','genesis_valid_init'],
  'C13':['minter_authority_only','distr_full_stored_valid','distr_sub_stored_valid','distr_share_stored_valid','distr_burn_stored_valid','denom_frozen','minter_update_requires_current'],
